@@ -238,21 +238,24 @@ func TestProp(t *testing.T) {
 			r.Violation(c.fp, c.what, c.d)
 			continue
 		}
-		again := 0
-		for i := 0; i < 2; i++ {
+		// Alone, nothing competes for the 5 s window: one reproduction in up to twelve isolated re-runs is enough (the outcome
+		// may legitimately depend on the random KDC order, so it need not reproduce every time).
+		again, tries := 0, 0
+		for i := 0; i < 12 && again == 0; i++ {
+			tries++
 			runCase(r, k, kt, c.a, c.ck, true, func(fp, what string, d map[string]any) {
 				if fp == c.fp {
 					again++
 				}
 			})
 		}
-		if again == 2 {
-			c.d["reproduced_in_isolation"] = "2 of 2 re-runs"
+		if again > 0 {
+			c.d["reproduced_in_isolation"] = fmt.Sprintf("at re-run %d of at most 12", tries)
 			r.Violation(c.fp, c.what, c.d)
 			confirmed++
 		} else {
 			r.Inc("failure_under_load_not_reproduced_in_isolation")
-			r.Note(fmt.Sprintf("%s: '%s' was observed once with 400 cases in flight and %d of 2 times alone: counted as a timing artefact of the harness, not judged", c.ck, c.fp, again))
+			r.Note(fmt.Sprintf("%s: '%s' was observed once with 400 cases in flight and in none of 12 re-runs alone: counted as a timing artefact of the harness, not judged", c.ck, c.fp))
 		}
 	}
 	r.Exhaustive("all assignments for 1 KDC x 3 preference limits")
